@@ -16,6 +16,7 @@ matches.
 
 import datetime
 import logging
+import os
 
 from collections import defaultdict
 
@@ -23,6 +24,10 @@ import numpy as np
 
 
 LOG = logging.getLogger("spowtd.classify")
+
+# Verification seam, inert unless SPOWTD_VERIF=1 *and* a harness has installed a
+# factory here: lets a simulator own the order in which free storms propose.
+_VERIF_WORKLIST = None
 
 
 def classify_intervals(
@@ -481,6 +486,8 @@ def find_stable_matching(storm_candidates, jump_preferences):
     matchable_storms = {
         storm for storm, candidates in storm_candidates.items() if candidates
     }
+    if _VERIF_WORKLIST is not None and os.environ.get("SPOWTD_VERIF") == "1":
+        matchable_storms = _VERIF_WORKLIST(matchable_storms)
     matches = dict()
     while matchable_storms:
         storm = matchable_storms.pop()
